@@ -349,6 +349,9 @@ def st_cases():
         st.sampled_from(["A", "B", "AA", "1", "2", "-3.5", "ATOM", "?", ".", "?", "HOH", "A-2", "x1"]),
         st.sampled_from(["two words", "a b c", "O5'", "H5''", 'say "hi"', "it's", "N 1", "P 21 21 21", "multi\nline text", "inner line ends in blanks  \nsecond line", "tab at the end\t\nnext", "first\n   \nthird after a blank-only line", "semi;colon", "#hash", "_under", "data_x", "'q", '"q']),
         st.text(alphabet="ABCabc123", min_size=1, max_size=4),
+        # values that differ from a plain one only by blanks at their edges (a quoted value with a blank next to the
+        # quote, a blank-only value): distinct mmCIF values, so distinct keys of a renaming
+        st.sampled_from([" A", "A ", " A ", " B", "B  ", " ", "  ", " 1", "AA "]),
     )
 
     @st.composite
